@@ -200,6 +200,9 @@ structure Fit where
   features : List Nat
   /-- categorical terms with their edge knots -/
   cats : List Cat
+  /-- the same per term index (a tensor term lists its categorical marginals; the intercept has none):
+  `partial_dependence(term=i, X)` only checks the domain of term `i` -/
+  termCats : List (List Cat) := []
   deriving Repr
 
 /-- `n_feats` as `check_X` computes it: `max(n_feats, max(features))` when there are features -/
@@ -214,6 +217,13 @@ def checkXFresh (X : List (List Val)) : Bool := checkArray2 X none
 /-- `check_X(X, n_feats, edge_knots, dtypes, features)` as called on a fitted model -/
 def checkXFitted (f : Fit) (X : List (List Val)) : Bool :=
   checkArray2 X (some f.nFeats) && f.cats.all (catOk X)
+
+/-- `check_X` as called by `_modelmat(X, term=i)` for one term (`partial_dependence`): all of `X` must be finite and
+have the fitted width, but only the categorical domain of term `i` is checked.
+(`n_feats = max(m_features, max(term.feature))`, which is `m_features` like `Fit.nFeats` as every term feature is a
+column of the training data.) -/
+def checkXFittedTerm (f : Fit) (term : Nat) (X : List (List Val)) : Bool :=
+  checkArray2 X (some f.nFeats) && (f.termCats.getD term []).all (catOk X)
 
 /-- `check_y(y, link, dist)` : ravel, `check_array`, then the link-domain test -/
 def checkYFinite (y : List Val) : Bool := checkArray1 y
@@ -246,6 +256,8 @@ structure Args where
   converged : Bool := false
   /-- `sample(quantity='coef')`: `sample_at_X` is never looked at -/
   coefOnly : Bool := false
+  /-- `partial_dependence(term=…)` -/
+  term : Nat := 0
   deriving Repr
 
 inductive VecArg where
@@ -270,6 +282,8 @@ inductive Step where
   | xFresh
   /-- `check_X(X, n_feats=…, edge_knots=…, dtypes=…, features=…)` -/
   | xFitted
+  /-- `_modelmat(X, term=i)`: the same, but only the categorical domain of the requested term -/
+  | xFittedTerm
   /-- the same for `sample_at_X` (skipped when absent or `quantity='coef'`) -/
   | sampleAtXFitted
   /-- `terms.compile(X)`: every term feature / by-variable must be a column of X -/
@@ -326,6 +340,10 @@ def Step.passes (m : Model) (a : Args) : Step → Bool
   | .xFitted =>
       match m.fit with
       | some f => checkXFitted f a.X
+      | none => false
+  | .xFittedTerm =>
+      match m.fit with
+      | some f => checkXFittedTerm f a.term a.X
       | none => false
   | .sampleAtXFitted =>
       match a.coefOnly, a.sampleAtX, m.fit with
@@ -394,8 +412,8 @@ code path depends on them (`gridsearch`, `fit_quantile`). -/
 def table (e : Entry) (fitted converged : Bool) : List Step :=
   match e with
   | .fit => fitSteps false
-  | .predict | .predictMu | .predictProba | .confidenceIntervals | .predictionIntervals
-  | .partialDependence => [.fitted, .xFitted]
+  | .predict | .predictMu | .predictProba | .confidenceIntervals | .predictionIntervals => [.fitted, .xFitted]
+  | .partialDependence => [.fitted, .xFittedTerm]
   | .devianceResiduals | .score => scoreSteps
   | .loglikelihood =>
       [.yFinite false, .linkResolved, .yDomain false, .fitted, .xFitted,
